@@ -221,7 +221,11 @@ CLAIMS = {
              "factors with the repaired reduction loop, chunk exponents, scale count with the repaired delay "
              "sign): consecutive scales differ by factor 1 (delayed axis) or 2 with new = ceil(old/2); chunk "
              "exponents add up to 3e±1 for EVERY delay triple, level and target exponent (incl. target 1 and "
-             "extreme anisotropy); the last scale fits in two target-size chunks per axis for all sizes. Float "
+             "extreme anisotropy); the last scale fits in two target-size chunks per axis for all sizes; PARTIAL "
+             "for 'compatible chunk sizes': with at most two distinct axis delays, target exponent >= 1 and no "
+             "anisotropy reduction, every pair of consecutive levels satisfies the per-axis relation the "
+             "pyramid computation needs (chunk_sizes_compatible_partial); the missing part is known finding "
+             "F21, kernel-checked witness three_delays_counterexample. Float "
              "stage (delays, keys, units) observed: delays compared with exact-rational nearest integers. "
              "Oracle on the real info: distinct keys, size/resolution relation, power-of-two chunks, isotropy "
              "bound to the finest axis, acceptance by the encoders (incl. through generate-scales-info main() "
